@@ -241,6 +241,7 @@ class Interp:
         self.deadline = time.time() + timeout if timeout else None
         self.globals = {}      # name -> address of the global's cell (see bind_global)
         self.externs = {}      # name -> callable(interp, args, mem, cond) -> value or None
+        self.fptrs = {}        # concrete function-pointer value -> callable (indirect calls through a function table)
 
     def feasible(self, cond, extra):
         t0 = time.perf_counter()
@@ -426,13 +427,20 @@ class Interp:
                         raise Unsupported('gep into ' + cur)
             env[m.group(1)] = z3.simplify(addr)
             return None
-        m = re.match(r'(%[\w.]+) = load (\S+), \S+ (%[\w.]+|@[\w.]+)', ins)
+        m = re.match(r'(%[\w.]+) = load (?:volatile )?(.*)$', ins)
         if m:
-            env[m.group(1)] = mem.load(self.conc(self.val(env, m.group(3), 'i64')), self.m.sizeof(m.group(2)))
+            parts = Module._split(m.group(2))
+            ty = parts[0].strip()
+            ptr = parts[1].strip().split()[-1]
+            env[m.group(1)] = mem.load(self.conc(self.val(env, ptr, 'i64')), self.m.sizeof(ty))
             return None
-        m = re.match(r'store (\S+) ([^,]+), \S+ (%[\w.]+|@[\w.]+)', ins)
+        m = re.match(r'store (?:volatile )?(.*)$', ins)
         if m:
-            mem.store(self.conc(self.val(env, m.group(3), 'i64')), self.m.sizeof(m.group(1)), self.val(env, m.group(2), m.group(1)))
+            parts = Module._split(m.group(1))
+            tv = parts[0].strip()
+            ty, _, v = tv.rpartition(' ')
+            ptr = parts[1].strip().split()[-1]
+            mem.store(self.conc(self.val(env, ptr, 'i64')), self.m.sizeof(ty), self.val(env, v, ty if not ty.endswith('*') else 'i64'))
             return None
         m = re.match(r'(%[\w.]+) = alloca (.+?), align', ins)
         if m:
@@ -493,6 +501,20 @@ class Interp:
             return ('ret', rv, fr.dest)
         if ins == 'unreachable':
             return ('dead',)
+        m = re.match(r'(?:(%[\w.]+) = )?(?:tail |notail |musttail )?call (?:fastcc |noalias |nonnull |noundef |signext |zeroext )*(\S+) (%[\w.]+)\((.*)\)', ins)
+        if m:
+            fp = self.conc(env[m.group(3)])
+            if fp not in self.fptrs:
+                raise Unsupported('indirect call to %#x' % fp)
+            args = []
+            for a in Module._split(m.group(4)):
+                a = re.sub(r'\b(noundef|nonnull|noalias|nocapture|readonly|writeonly|signext|zeroext|align \d+|dereferenceable\(\d+\))\b', '', a).strip()
+                t, _, v = a.rpartition(' ')
+                args.append(self.val(env, v, t.strip() or 'i64'))
+            r = self.fptrs[fp](self, args, mem, cond)
+            if m.group(1) is not None:
+                env[m.group(1)] = r
+            return None
         m = re.match(r'(?:(%[\w.]+) = )?(?:tail |notail |musttail )?call (?:fastcc |noalias |nonnull |noundef |signext |zeroext )*(.+?) @([\w.$]+)\((.*)\)', ins)
         if m:
             dest, name, argstr = m.group(1), m.group(3), m.group(4)
